@@ -554,6 +554,36 @@ def dump_metadata_obj(m: Any) -> list[str]:
     return items
 
 
+def dep_object_strings(pkg: Any) -> list[str]:
+    """the strings stored in the dependency objects that `to_pep_508` prints (hypothesis `Objects.requiresDistObjects` /
+    `DepLineFree` of the validation theorem): names, extras, source url / reference / subdirectory, texts of the
+    constraint bounds, strings in the marker leaves"""
+    out: list[str] = []
+
+    def bounds(c: Any) -> None:
+        for r in (getattr(c, "ranges", None) or [c]):
+            for v in (getattr(r, "min", None), getattr(r, "max", None)):
+                if v is not None:
+                    out.append(v.text)
+            if hasattr(r, "text") and not hasattr(r, "min"):
+                out.append(r.text)
+
+    def leaves(m: Any) -> None:
+        for sub in (getattr(m, "markers", None) or []):
+            leaves(sub)
+        if hasattr(m, "name") and hasattr(m, "value"):
+            out.extend([str(m.name), str(m.value)])
+    for dep in pkg.requires:
+        out.append(dep.pretty_name)
+        out.extend(dep.extras)
+        out.extend(str(x) for x in (dep.source_url, dep.source_reference, dep.source_subdirectory) if x)
+        out.extend(str(x) for x in dep.in_extras)
+        bounds(dep.constraint)
+        bounds(dep.python_constraint)
+        leaves(dep.marker)
+    return out
+
+
 def real_build(doc: dict[str, Any], files: dict[str, str], full_sdist: bool = False) -> Real:
     from poetry.core.factory import Factory
     from poetry.core.masonry.builders.sdist import SdistBuilder
@@ -625,6 +655,7 @@ def real_build(doc: dict[str, Any], files: dict[str, str], full_sdist: bool = Fa
                 "spdx": spdx,
                 "extras": [str(e) for e in pkg.extras],
                 "requires_dist": list(meta.requires_dist),
+                "dep_strings": dep_object_strings(pkg),
                 "format_python": format_python_constraint(pkg.python_constraint) if pkg.python_versions != "*" else "",
                 "readme_stored": None if pkg.readme_content is None else str(pkg.readme_content),
                 "readme_texts": [Path(p).read_text(encoding="utf-8") for p in pkg.readmes],
@@ -982,6 +1013,7 @@ def run_cases(ctx: core.Ctx, cases: list[dict[str, Any]], stream: str) -> None:
     replies = core.run_driver(lines)
     model: dict[int, list[str]] = dict(zip(idx, replies))
     dis = 0
+    printer_checks: list[tuple[str, str, str]] = []
     by_d: dict[int, dict[str, list[tuple[str, str]]]] = {}
     for i, (c, r) in enumerate(zip(cases, reals)):
         d, style = c["d"], c["style"]
@@ -1017,6 +1049,19 @@ def run_cases(ctx: core.Ctx, cases: list[dict[str, Any]], stream: str) -> None:
         if not set(r.inputs.get("extras", [])) <= {str(_canon(k)) for k in raw_extras}:
             dis += 1
             ctx.disagree(stream + ":extras-canonical", {"doc": to_jsonable(c["doc"])}, r.inputs.get("extras"), raw_extras)
+        # hypotheses `Printers.toolLinksFormat` / `Printers.spdxTable`: recorded for a batched check after the loop
+        tp = c["doc"].get("tool", {}).get("poetry", {})
+        for k in ("homepage", "repository", "documentation"):
+            if isinstance(tp.get(k), str) and transportable(tp[k]):
+                printer_checks.append(("urifmt", tp[k], "1"))
+        for _raw, (lid, lname, _o, _d) in r.inputs.get("spdx", {}).items():
+            from poetry.core.spdx.license import License as _Lic
+            if lid in _Lic.CLASSIFIER_SUPPORTED and lid not in _Lic.CLASSIFIER_NAMES:
+                printer_checks.append(("spdxname", lid, lname))
+        bad_strings = [x for x in r.inputs.get("dep_strings", []) if "\n" in x or "\r" in x]
+        if bad_strings:
+            dis += 1
+            ctx.disagree(stream + ":object-hypothesis", {"doc": to_jsonable(c["doc"])}, bad_strings[:3], "DepLineFree")
         # (1) PKG-INFO == METADATA
         if r.pkg_info != r.metadata:
             ctx.violate("pkginfo-differs", "sdist PKG-INFO differs from wheel METADATA", witness(c))
@@ -1046,6 +1091,12 @@ def run_cases(ctx: core.Ctx, cases: list[dict[str, Any]], stream: str) -> None:
             key = c.get("finding_key") or f"unfaithful:{aspect}"
             ctx.violate(key, f"[{style}] {msg}", witness(c))
         by_d.setdefault(c["pair"], {})[style] = header_multiset(text)
+    if printer_checks:
+        uniq = sorted(set(printer_checks))
+        for (op, arg, want), m in zip(uniq, core.run_driver([core.line(op, arg) for op, arg, _w in uniq])):
+            if m != ["ok", want]:
+                dis += 1
+                ctx.disagree(stream + ":printer-hypothesis:" + op, arg, want, m)
     # (4) both styles yield the same fields
     for pair, both in by_d.items():
         if len(both) == 2 and both["project"] != both["legacy"]:
@@ -1460,6 +1511,43 @@ def run_helpers(ctx: core.Ctx, n: int) -> None:
             dis += 1
             ctx.disagree("license-indent", x, want, m)
     ctx.stream("license-indent", len(lics), dis)
+    # the schema format `uri` ([tool.poetry] homepage/repository/documentation): model recogniser vs the regular expression of
+    # the vendored fastjsonschema (scheme part generated over ASCII: the model's \\w is ASCII)
+    import re as _re
+    from fastjsonschema.draft04 import CodeGeneratorDraft04
+    uri_re = _re.compile(CodeGeneratorDraft04.FORMAT_REGEXS["uri"])
+    uris = list(URLS) + ["", ":", "a:", "a:b", "a:/", "a://", "a:///x", "a b:c", "a:b c", "a:b\nc", "a:b\n", "\na:b", "a_1:x", "-a:b", "a-b:c", "a::b",
+                         "http://x y", "http://x\ty", "http://x\x0by", "http://x\u00a0y", "http://x\u2028y", "http://é", "a:é日本", "http:/", "x:\r"]
+    for _ in range(n):
+        scheme = "".join(rng.choice("abcXYZ019_-+. ") for _ in range(rng.randint(0, 5)))
+        rest = "".join(rng.choice(["/", "/", "a", "B", "0", ".", ":", "?", "#", " ", "\n", "\r", "\t", "é", "\u3000", "\x1c", "%", "@"]) for _ in range(rng.randint(0, 8)))
+        uris.append(scheme + rng.choice([":", ":", ":", ""]) + rest)
+    uris = [u for u in uris if transportable(u)]
+    rep = core.run_driver([core.line("urifmt", x) for x in uris])
+    dis = 0
+    for x, m in zip(uris, rep):
+        want = ["ok", "1" if uri_re.search(x) else "0"]
+        ctx.case("uri:" + x, nontrivial=want[1] == "1")
+        if m != want:
+            dis += 1
+            ctx.disagree("uri-format", x, want, m)
+    ctx.stream("uri-format", len(uris), dis)
+    # SPDX names that can be printed (supported licence ids without a classifier name): regenerated table vs license_by_id
+    from poetry.core.spdx.helpers import license_by_id
+    from poetry.core.spdx.license import License
+    needed = sorted(License.CLASSIFIER_SUPPORTED - set(License.CLASSIFIER_NAMES))
+    probes = needed + [x.lower() for x in needed] + ["MIT", "Apache-2.0", "not-a-licence"]
+    rep = core.run_driver([core.line("spdxname", license_by_id(x).id) for x in probes])
+    dis = 0
+    for x, m in zip(probes, rep):
+        lic = license_by_id(x)
+        is_needed = lic.id in License.CLASSIFIER_SUPPORTED and lic.id not in License.CLASSIFIER_NAMES
+        want = ["ok", lic.name if is_needed else m[1] if len(m) > 1 else ""]
+        ctx.case("spdx:" + x, nontrivial=is_needed)
+        if m != want:
+            dis += 1
+            ctx.disagree("spdx-names", x, want, m)
+    ctx.stream("spdx-names", len(probes), dis)
     # canonicalize_name (names of extras): model vs packaging.utils.canonicalize_name
     from packaging.utils import canonicalize_name
     names = list(EXTRA_NAMES) + ["", "-", "a--b", "A_.-b", "..a..", "x y", "ex\tra", "Ex_A.b-C", "a\x0bb", "__", "a.B_c-D", "9-_-9"]
